@@ -3,6 +3,16 @@
 
      (11 2 S S (i ...))    ->  ((b ...) (b ...) (b ...))   Slice::accepts(i) of the two slices and
                                   Slice2D{rows: S, columns: S}.accepts(i, i'), i' the next probe (cyclic)
+     (11 3 r c S S (i ...)) -> (A A' B B' G G' R1 R2 R3 R4)    the slice-algebra tier (wave 2), r, c in 1..8:
+          A / A'   Slice::accepts of the row slice at 0, 1, ..., r+1 and then at the extra probes i ...:
+                   A the expression built from the enum variants, A' built with the methods
+                   .not() / .and() / .or() (Model/Slices.v by_methods)
+          B / B'   the same for the column slice at 0 ... c+1 and the extra probes
+          G / G'   Slice2D::accepts(i, j) for i in 0..=r+1, j in 0..=c+1 (row-major): G for
+                   Slice2D::new().rows(enum).columns(enum), G' for slices::new().columns(methods).rows(methods)
+          R1 .. R4 (o obs) of one retention applied to Matrix::from_fn((r, c), |(i, j)| 100 + 10 i + j):
+                   R1 retain_mut(rows-first, enum)      R2 retain_mut(columns-first, methods)
+                   R3 retain(rows-first, methods)       R4 retain(columns-first, enum)
      (11 1 start (op ...))
        start:  (0 (row ...))      Matrix::from(vec of vecs)      row = (v ...)
                (1 r c (v ...))    Matrix::from_flat_row_major((r, c), values)
@@ -24,9 +34,13 @@
                (10 r c v)         set
                (11 k)             map_mut(|x| x + k)
                (12 k)             map_mut_with_index(|x, i, j| x + k * (10 * i + j + 1))
-               (13 (rp) (cp) k v) { let mut parts = m.partition(&rp, &cp); every cell of part k
-                                  (if there is one) is overwritten with v } — the borrow ends,
-                                  the same matrix is used on; 2 = partition panicked
+               (13 (rp) (cp) k v) { let mut parts = m.partition(&rp, &cp); cell (i, j) — the PART's
+                                  own index — of part k (if there is one) is overwritten with
+                                  v + 10 i + j } — the borrow ends, the same matrix is used on;
+                                  2 = partition panicked.  (Wave 2: distinguishable values per
+                                  cell, written through the part's set / get_reference_mut /
+                                  map_mut_with_index / row_major_reference_mut_iter, so that the
+                                  cell mapping of the part matters.)
        S:      (0) All  (1) None  (2 i) Single  (3 a b) Range(a..b)  (4 S) Not  (5 S S) And
                (6 S S) Or
 
@@ -39,7 +53,7 @@
              column_major_iter(); the stored data (parsed from the Debug output);
              e = (v) or () where the read panicked *)
 From Coq Require Import List ZArith NArith Bool.
-From EasyML Require Import Base.Sx Model.Matrix Model.MatrixHistory.
+From EasyML Require Import Base.Sx Model.Matrix Model.MatrixHistory Model.Slices.
 Import ListNotations.
 Local Open Scope N_scope.
 
@@ -94,7 +108,8 @@ Definition dxop (s : sx) : option (xop Z) :=
   match s with
   | SL [SZ 13%Z; rp; cp; k; v] =>
       match dlist dN rp, dlist dN cp, dnat k, dZ v with
-      | Some rp, Some cp, Some k, Some v => Some (XPartitionFill rp cp k v)
+      | Some rp, Some cp, Some k, Some v =>
+          Some (XPartitionWrite rp cp k (fun i j => (v + 10 * Z.of_N i + Z.of_N j)%Z))
       | _, _, _, _ => None
       end
   | _ => option_map XOp (dop s)
@@ -150,12 +165,40 @@ Definition c11_accepts (a b : slice) (probes : list N) : sx :=
        slist sbool (map (fun p => slice2d_accepts (mkSlice2D a b) (fst p) (snd p))
                         (rotate_pairs (hd 0 probes) probes)) ].
 
+(* (11 3 ...): the slice-algebra tier *)
+Definition c11_algebra (r c : N) (a b : slice) (extra : list N) : sx :=
+  let am := by_methods a in
+  let bm := by_methods b in
+  let rprobes := nrange (r + 2) ++ extra in
+  let cprobes := nrange (c + 2) ++ extra in
+  let cells := pairs (r + 2) (c + 2) in
+  let grid_of (s : slice2d) := slist sbool (map (fun p => slice2d_accepts s (fst p) (snd p)) cells) in
+  match from_fn (r, c) (fun i j => (100 + 10 * Z.of_N i + Z.of_N j)%Z) with
+  | Ok m =>
+      let step (o : op Z) :=
+        let res := impl_step m o in SL [SZ (if snd res then 0 else 2)%Z; sobs (fst res)] in
+      SL [ slist sbool (map (slice_accepts a) rprobes); slist sbool (map (slice_accepts am) rprobes);
+           slist sbool (map (slice_accepts b) cprobes); slist sbool (map (slice_accepts bm) cprobes);
+           grid_of (slice2d_rows_then_columns a b); grid_of (slice2d_columns_then_rows bm am);
+           step (ORetainMut (slice2d_rows_then_columns a b));
+           step (ORetainMut (slice2d_columns_then_rows bm am));
+           step (ORetain (slice2d_rows_then_columns am bm));
+           step (ORetain (slice2d_columns_then_rows b a)) ]
+  | _ => bad_case
+  end.
+
 Definition run_c11 (args : list sx) : sx :=
   match args with
   | [SZ 1%Z; start; ops] =>
       match dstart start, dlist dxop ops with
       | Some start, Some ops => c11_history start ops
       | _, _ => bad_case
+      end
+  | [SZ 3%Z; r; c; a; b; extra] =>
+      match dN r, dN c, dslice a, dslice b, dlist dN extra with
+      | Some r, Some c, Some a, Some b, Some extra =>
+          if (1 <=? r) && (r <=? 8) && (1 <=? c) && (c <=? 8) then c11_algebra r c a b extra else bad_case
+      | _, _, _, _, _ => bad_case
       end
   | [SZ 2%Z; a; b; probes] =>
       match dslice a, dslice b, dlist dN probes with
